@@ -189,7 +189,9 @@ func (r Condition) SetOperator(op Operator) Condition {
 }
 
 func (r *condition) setOperator(op Operator) {
-	if op == nil {
+	if op == nil || isNilPtr(op) {
+		// a typed nil pointer whose Operator methods have
+		// value receivers would panic when they are called
 		return
 	}
 
